@@ -211,49 +211,71 @@ EmitShapes(name, cs) == /\ \A k \in 1..Len(cs) : EmitShape(name, k, cs[k], TopM(
                         /\ PrintT("@@COUNT " \o name \o " " \o ToString(Len(cs)))
 
 \* ---- JSON documents and identifier texts --------------------------------------------
-\* <<class, variant, how, n>>: how = "lit" (the variant text replaces the node), "hex" (a string of n hex digits), "digits" (a number of n digits),
-\* "neg-digits", "str" (a string of n letters), "arrays" / "objects" (n levels of nesting), "prefix-hex" (the node's own prefix, e.g. "addr:", then n hex digits)
+\* An entry <<class, variant, how, n, text>> says what replaces ONE node of a valid JSON document (every node in turn),
+\* or the whole text of a valid identifier.  how:
+\*   "lit"     the text as it stands                         "hex"       a quoted string of n hex digits
+\*   "prefix-hex" the node's own prefix ("addr:", "h:", "ed25519:" ...) then n hex digits     "index-hex"  "7::" then n hex digits
+\*   "digits" / "neg-digits" a number of n digits            "str-digits" / "str-neg-digits"  the same, quoted
+\*   "str"     a quoted string of n letters                  "arrays" / "objects"  n levels of nesting around null
+\*   "policy"  n nested thresh(1,[...]) around above(0)      "policy-arity"  thresh(1,[above(0) x n])
+\*   "cut"     the document / text cut at every position     "dupkey" / "delkey" / "addkey"  an object member doubled / removed / added
+\*   "repeat"  an array of n copies of the node              "append"    the text appended to the document
+\*   "invalid-utf8" / "nul" / "escapes"  strings with such contents
+J(class, variant, how, n, text) == <<class, variant, how, n, text>>
 JsonCatalogue == <<
-  <<"json-wrong-type", "null", "lit", 0>>, <<"json-wrong-type", "true", "lit", 0>>, <<"json-wrong-type", "0", "lit", 0>>, <<"json-wrong-type", "-1", "lit", 0>>,
-  <<"json-wrong-type", "1.5", "lit", 0>>, <<"json-wrong-type", "\"\"", "lit", 0>>, <<"json-wrong-type", "\"x\"", "lit", 0>>, <<"json-wrong-type", "[]", "lit", 0>>,
-  <<"json-wrong-type", "{}", "lit", 0>>, <<"json-wrong-type", "[null]", "lit", 0>>, <<"json-wrong-type", "[[]]", "lit", 0>>, <<"json-wrong-type", "{\"\":null}", "lit", 0>>,
-  <<"json-huge-number", "2^63", "lit", 0>>, <<"json-huge-number", "2^64", "lit", 0>>, <<"json-huge-number", "2^128", "lit", 0>>, <<"json-huge-number", "1e400", "lit", 0>>,
-  <<"json-huge-number", "1e-400", "lit", 0>>, <<"json-huge-number", "-2^63-1", "lit", 0>>, <<"json-huge-number", "digits", "digits", 40>>, <<"json-huge-number", "digits", "digits", 400>>,
-  <<"json-huge-number", "digits", "digits", 20000>>, <<"json-huge-number", "quoted-digits", "str-digits", 40>>, <<"json-huge-number", "quoted-digits", "str-digits", 20000>>,
-  <<"json-huge-number", "quoted-digits", "str-digits", 400000>>, <<"json-huge-number", "quoted-negative", "str-neg-digits", 40>>,
-  <<"json-huge-number", "quoted-exponent", "lit", 0>>, <<"json-huge-number", "quoted-hex", "lit", 0>>, <<"json-huge-number", "quoted-unit", "lit", 0>>,
-  <<"json-long-hex", "hex", "hex", 0>>, <<"json-long-hex", "hex", "hex", 1>>, <<"json-long-hex", "hex", "hex", 15>>, <<"json-long-hex", "hex", "hex", 16>>, <<"json-long-hex", "hex", "hex", 17>>, <<"json-long-hex", "hex", "hex", 31>>,
-  <<"json-long-hex", "hex", "hex", 32>>, <<"json-long-hex", "hex", "hex", 33>>, <<"json-long-hex", "hex", "hex", 63>>, <<"json-long-hex", "hex", "hex", 64>>, <<"json-long-hex", "hex", "hex", 65>>,
-  <<"json-long-hex", "hex", "hex", 66>>, <<"json-long-hex", "hex", "hex", 76>>, <<"json-long-hex", "hex", "hex", 77>>, <<"json-long-hex", "hex", "hex", 128>>, <<"json-long-hex", "hex", "hex", 129>>,
-  <<"json-long-hex", "hex", "hex", 130>>, <<"json-long-hex", "hex", "hex", 1000>>, <<"json-long-hex", "hex", "hex", 100001>>,
-  <<"json-long-hex", "prefixed", "prefix-hex", 0>>, <<"json-long-hex", "prefixed", "prefix-hex", 63>>, <<"json-long-hex", "prefixed", "prefix-hex", 65>>, <<"json-long-hex", "prefixed", "prefix-hex", 66>>,
-  <<"json-long-hex", "prefixed", "prefix-hex", 76>>, <<"json-long-hex", "prefixed", "prefix-hex", 78>>, <<"json-long-hex", "prefixed", "prefix-hex", 128>>, <<"json-long-hex", "prefixed", "prefix-hex", 130>>,
-  <<"json-long-hex", "prefixed", "prefix-hex", 1000>>, <<"json-long-hex", "non-hex", "lit", 0>>, <<"json-long-hex", "index-form", "index-hex", 64>>, <<"json-long-hex", "index-form", "index-hex", 66>>,
-  <<"json-long-hex", "index-form", "index-hex", 1000>>, <<"json-long-hex", "index-form-no-height", "lit", 0>>, <<"json-long-hex", "index-form-3-parts", "lit", 0>>,
-  <<"json-long-string", "letters", "str", 17>>, <<"json-long-string", "letters", "str", 1000>>, <<"json-long-string", "letters", "str", 1000000>>,
-  <<"json-long-string", "escapes", "lit", 0>>, <<"json-long-string", "invalid-utf8", "lit", 0>>, <<"json-long-string", "nul", "lit", 0>>,
-  <<"json-deep-nesting", "arrays", "arrays", 100>>, <<"json-deep-nesting", "arrays", "arrays", 9999>>, <<"json-deep-nesting", "arrays", "arrays", 10001>>, <<"json-deep-nesting", "arrays", "arrays", 200000>>,
-  <<"json-deep-nesting", "objects", "objects", 100>>, <<"json-deep-nesting", "objects", "objects", 10001>>, <<"json-deep-nesting", "objects", "objects", 100000>>,
-  <<"json-deep-nesting", "policy-thresholds", "policy", 33>>, <<"json-deep-nesting", "policy-thresholds", "policy", 1000>>, <<"json-deep-nesting", "policy-thresholds", "policy", 100000>>,
-  <<"json-policy-text", "unterminated", "lit", 0>>, <<"json-policy-text", "arity-256", "policy-arity", 256>>, <<"json-policy-text", "arity-70000", "policy-arity", 70000>>,
-  <<"json-policy-text", "n-300", "lit", 0>>, <<"json-policy-text", "unknown", "lit", 0>>, <<"json-policy-text", "uc-huge-count", "lit", 0>>,
-  <<"json-structure", "truncated", "cut", 0>>, <<"json-structure", "duplicate-key", "dupkey", 0>>, <<"json-structure", "missing-key", "delkey", 0>>, <<"json-structure", "unknown-key", "addkey", 0>>,
-  <<"json-structure", "array-of-1000-copies", "repeat", 1000>>, <<"json-structure", "trailing-garbage", "lit", 0>> >>
+  J("json-wrong-type", "null", "lit", 0, "null"), J("json-wrong-type", "true", "lit", 0, "true"), J("json-wrong-type", "0", "lit", 0, "0"), J("json-wrong-type", "-1", "lit", 0, "-1"),
+  J("json-wrong-type", "1.5", "lit", 0, "1.5"), J("json-wrong-type", "empty-string", "lit", 0, "\"\""), J("json-wrong-type", "string", "lit", 0, "\"x\""),
+  J("json-wrong-type", "empty-array", "lit", 0, "[]"), J("json-wrong-type", "empty-object", "lit", 0, "{}"), J("json-wrong-type", "array-of-null", "lit", 0, "[null]"),
+  J("json-wrong-type", "nested-empty-array", "lit", 0, "[[]]"), J("json-wrong-type", "object-empty-key", "lit", 0, "{\"\":null}"),
+  J("json-huge-number", "2^63", "lit", 0, "9223372036854775808"), J("json-huge-number", "2^64", "lit", 0, "18446744073709551616"),
+  J("json-huge-number", "2^128", "lit", 0, "340282366920938463463374607431768211456"), J("json-huge-number", "1e400", "lit", 0, "1e400"), J("json-huge-number", "1e-400", "lit", 0, "1e-400"),
+  J("json-huge-number", "-2^63-1", "lit", 0, "-9223372036854775809"), J("json-huge-number", "digits", "digits", 40, ""), J("json-huge-number", "digits", "digits", 400, ""),
+  J("json-huge-number", "digits", "digits", 20000, ""), J("json-huge-number", "quoted-digits", "str-digits", 39, ""), J("json-huge-number", "quoted-digits", "str-digits", 40, ""),
+  J("json-huge-number", "quoted-digits", "str-digits", 78, ""), J("json-huge-number", "quoted-digits", "str-digits", 20000, ""), J("json-huge-number", "quoted-digits", "str-digits", 400000, ""),
+  J("json-huge-number", "quoted-negative", "str-neg-digits", 40, ""), J("json-huge-number", "quoted-2^128", "lit", 0, "\"340282366920938463463374607431768211456\""),
+  J("json-huge-number", "quoted-2^256", "lit", 0, "\"115792089237316195423570985008687907853269984665640564039457584007913129639936\""),
+  J("json-huge-number", "quoted-exponent", "lit", 0, "\"1e1000000000\""), J("json-huge-number", "quoted-hex", "lit", 0, "\"0xffffffffffffffffffffffffffffffffffffffffffffffffffffffffffffffffffff\""),
+  J("json-huge-number", "quoted-unit", "lit", 0, "\"340282366920938463463374607431768211456 TS\""), J("json-huge-number", "quoted-fraction", "lit", 0, "\"0.0000000000000000000000000000000000001 SC\""),
+  J("json-long-hex", "hex", "hex", 0, ""), J("json-long-hex", "hex", "hex", 1, ""), J("json-long-hex", "hex", "hex", 15, ""), J("json-long-hex", "hex", "hex", 16, ""), J("json-long-hex", "hex", "hex", 17, ""),
+  J("json-long-hex", "hex", "hex", 31, ""), J("json-long-hex", "hex", "hex", 32, ""), J("json-long-hex", "hex", "hex", 33, ""), J("json-long-hex", "hex", "hex", 63, ""), J("json-long-hex", "hex", "hex", 64, ""),
+  J("json-long-hex", "hex", "hex", 65, ""), J("json-long-hex", "hex", "hex", 66, ""), J("json-long-hex", "hex", "hex", 76, ""), J("json-long-hex", "hex", "hex", 77, ""), J("json-long-hex", "hex", "hex", 128, ""),
+  J("json-long-hex", "hex", "hex", 129, ""), J("json-long-hex", "hex", "hex", 130, ""), J("json-long-hex", "hex", "hex", 1000, ""), J("json-long-hex", "hex", "hex", 100001, ""),
+  J("json-long-hex", "prefixed", "prefix-hex", 0, ""), J("json-long-hex", "prefixed", "prefix-hex", 63, ""), J("json-long-hex", "prefixed", "prefix-hex", 65, ""), J("json-long-hex", "prefixed", "prefix-hex", 66, ""),
+  J("json-long-hex", "prefixed", "prefix-hex", 76, ""), J("json-long-hex", "prefixed", "prefix-hex", 78, ""), J("json-long-hex", "prefixed", "prefix-hex", 128, ""), J("json-long-hex", "prefixed", "prefix-hex", 130, ""),
+  J("json-long-hex", "prefixed", "prefix-hex", 1000, ""), J("json-long-hex", "non-hex", "lit", 0, "\"zz00000000000000000000000000000000000000000000000000000000000000\""),
+  J("json-long-hex", "index-form", "index-hex", 64, ""), J("json-long-hex", "index-form", "index-hex", 66, ""), J("json-long-hex", "index-form", "index-hex", 1000, ""),
+  J("json-long-hex", "index-form-no-height", "lit", 0, "\"::00\""), J("json-long-hex", "index-form-3-parts", "lit", 0, "\"1::2::3\""),
+  J("json-long-string", "letters", "str", 17, ""), J("json-long-string", "letters", "str", 1000, ""), J("json-long-string", "letters", "str", 1000000, ""),
+  J("json-long-string", "escapes", "escapes", 1000, ""), J("json-long-string", "invalid-utf8", "invalid-utf8", 0, ""), J("json-long-string", "nul", "nul", 0, ""),
+  J("json-deep-nesting", "arrays", "arrays", 100, ""), J("json-deep-nesting", "arrays", "arrays", 9999, ""), J("json-deep-nesting", "arrays", "arrays", 10001, ""), J("json-deep-nesting", "arrays", "arrays", 200000, ""),
+  J("json-deep-nesting", "objects", "objects", 100, ""), J("json-deep-nesting", "objects", "objects", 10001, ""), J("json-deep-nesting", "objects", "objects", 100000, ""),
+  J("json-deep-nesting", "policy-thresholds", "policy", 33, ""), J("json-deep-nesting", "policy-thresholds", "policy", 1000, ""), J("json-deep-nesting", "policy-thresholds", "policy", 100000, ""),
+  J("json-policy-text", "unterminated", "lit", 0, "\"thresh(1,[thresh(1,[\""), J("json-policy-text", "arity", "policy-arity", 256, ""), J("json-policy-text", "arity", "policy-arity", 70000, ""),
+  J("json-policy-text", "n-300", "lit", 0, "\"thresh(300,[above(0)])\""), J("json-policy-text", "unknown", "lit", 0, "\"frob(1)\""),
+  J("json-policy-text", "uc-huge-count", "lit", 0, "\"uc(0,[],18446744073709551616)\""), J("json-policy-text", "unbalanced", "lit", 0, "\"thresh(1,[above(0)]))))\""),
+  J("json-policy-text", "empty-args", "lit", 0, "\"thresh(,[])\""), J("json-policy-text", "above-huge", "lit", 0, "\"above(18446744073709551616)\""),
+  J("json-policy-text", "pk-long", "lit", 0, "\"pk(0x000000000000000000000000000000000000000000000000000000000000000000)\""),
+  J("json-structure", "truncated", "cut", 0, ""), J("json-structure", "duplicate-key", "dupkey", 0, ""), J("json-structure", "missing-key", "delkey", 0, ""), J("json-structure", "unknown-key", "addkey", 0, ""),
+  J("json-structure", "array-of-copies", "repeat", 1000, ""), J("json-structure", "trailing-garbage", "append", 0, "}]garbage") >>
 TextCatalogue == <<
-  <<"text-length", "empty", "lit", 0>>, <<"text-length", "cut", "cut", 0>>, <<"text-length", "hex", "hex", 1>>, <<"text-length", "hex", "hex", 63>>, <<"text-length", "hex", "hex", 64>>,
-  <<"text-length", "hex", "hex", 65>>, <<"text-length", "hex", "hex", 66>>, <<"text-length", "hex", "hex", 76>>, <<"text-length", "hex", "hex", 128>>, <<"text-length", "hex", "hex", 130>>,
-  <<"text-length", "hex", "hex", 1000>>, <<"text-length", "hex", "hex", 1000001>>,
-  <<"text-length", "prefixed", "prefix-hex", 0>>, <<"text-length", "prefixed", "prefix-hex", 1>>, <<"text-length", "prefixed", "prefix-hex", 63>>, <<"text-length", "prefixed", "prefix-hex", 65>>,
-  <<"text-length", "prefixed", "prefix-hex", 66>>, <<"text-length", "prefixed", "prefix-hex", 76>>, <<"text-length", "prefixed", "prefix-hex", 77>>, <<"text-length", "prefixed", "prefix-hex", 128>>,
-  <<"text-length", "prefixed", "prefix-hex", 130>>, <<"text-length", "prefixed", "prefix-hex", 1000>>, <<"text-length", "prefixed", "prefix-hex", 100000>>,
-  <<"text-length", "index-form", "index-hex", 0>>, <<"text-length", "index-form", "index-hex", 63>>, <<"text-length", "index-form", "index-hex", 65>>, <<"text-length", "index-form", "index-hex", 66>>,
-  <<"text-length", "index-form", "index-hex", 128>>, <<"text-length", "index-form", "index-hex", 1000>>,
-  <<"text-number", "digits", "digits", 39>>, <<"text-number", "digits", "digits", 40>>, <<"text-number", "digits", "digits", 78>>, <<"text-number", "digits", "digits", 79>>,
-  <<"text-number", "digits", "digits", 1000>>, <<"text-number", "digits", "digits", 100000>>, <<"text-number", "digits", "digits", 1000000>>, <<"text-number", "negative", "neg-digits", 5>>,
-  <<"text-number", "hex-form", "lit", 0>>, <<"text-number", "exponent", "lit", 0>>, <<"text-number", "huge-exponent", "lit", 0>>, <<"text-number", "unit", "lit", 0>>,
-  <<"text-number", "fraction", "lit", 0>>, <<"text-number", "underscores", "lit", 0>>, <<"text-number", "sign-only", "lit", 0>>,
-  <<"text-chars", "non-hex", "lit", 0>>, <<"text-chars", "colon-only", "lit", 0>>, <<"text-chars", "prefix-only", "lit", 0>>, <<"text-chars", "wrong-prefix", "lit", 0>>, <<"text-chars", "invalid-utf8", "lit", 0>>,
-  <<"text-chars", "quote", "lit", 0>>, <<"text-chars", "version-4-parts", "lit", 0>>, <<"text-chars", "version-huge", "lit", 0>>, <<"text-chars", "letters", "str", 17>>, <<"text-chars", "letters", "str", 100000>> >>
+  J("text-length", "empty", "lit", 0, ""), J("text-length", "cut", "cut", 0, ""), J("text-length", "hex", "hex", 1, ""), J("text-length", "hex", "hex", 63, ""), J("text-length", "hex", "hex", 64, ""),
+  J("text-length", "hex", "hex", 65, ""), J("text-length", "hex", "hex", 66, ""), J("text-length", "hex", "hex", 76, ""), J("text-length", "hex", "hex", 128, ""), J("text-length", "hex", "hex", 130, ""),
+  J("text-length", "hex", "hex", 1000, ""), J("text-length", "hex", "hex", 1000001, ""),
+  J("text-length", "prefixed", "prefix-hex", 0, ""), J("text-length", "prefixed", "prefix-hex", 1, ""), J("text-length", "prefixed", "prefix-hex", 63, ""), J("text-length", "prefixed", "prefix-hex", 65, ""),
+  J("text-length", "prefixed", "prefix-hex", 66, ""), J("text-length", "prefixed", "prefix-hex", 76, ""), J("text-length", "prefixed", "prefix-hex", 77, ""), J("text-length", "prefixed", "prefix-hex", 128, ""),
+  J("text-length", "prefixed", "prefix-hex", 130, ""), J("text-length", "prefixed", "prefix-hex", 1000, ""), J("text-length", "prefixed", "prefix-hex", 100000, ""),
+  J("text-length", "index-form", "index-hex", 0, ""), J("text-length", "index-form", "index-hex", 63, ""), J("text-length", "index-form", "index-hex", 65, ""), J("text-length", "index-form", "index-hex", 66, ""),
+  J("text-length", "index-form", "index-hex", 128, ""), J("text-length", "index-form", "index-hex", 1000, ""),
+  J("text-number", "digits", "digits", 39, ""), J("text-number", "digits", "digits", 40, ""), J("text-number", "digits", "digits", 78, ""), J("text-number", "digits", "digits", 79, ""),
+  J("text-number", "digits", "digits", 1000, ""), J("text-number", "digits", "digits", 100000, ""), J("text-number", "digits", "digits", 1000000, ""), J("text-number", "negative", "neg-digits", 5, ""),
+  J("text-number", "hex-form", "lit", 0, "0x1f"), J("text-number", "exponent", "lit", 0, "1e5"), J("text-number", "huge-exponent", "lit", 0, "1e1000000000"), J("text-number", "unit", "lit", 0, "1 SC"),
+  J("text-number", "huge-unit", "lit", 0, "340282366920938463463374607431768211456 TS"), J("text-number", "fraction", "lit", 0, "1.5"), J("text-number", "tiny-fraction", "lit", 0, "0.0000000000000000000000000000000000001 SC"),
+  J("text-number", "underscores", "lit", 0, "1_000"), J("text-number", "sign-only", "lit", 0, "-"), J("text-number", "plus", "lit", 0, "+1"), J("text-number", "2^256", "lit", 0, "115792089237316195423570985008687907853269984665640564039457584007913129639936"),
+  J("text-chars", "non-hex", "lit", 0, "zz00000000000000000000000000000000000000000000000000000000000000"), J("text-chars", "colon-only", "lit", 0, ":"), J("text-chars", "double-colon", "lit", 0, "::"),
+  J("text-chars", "prefix-only", "prefix-hex", 0, ""), J("text-chars", "wrong-prefix", "lit", 0, "xyz:0000000000000000000000000000000000000000000000000000000000000000"),
+  J("text-chars", "invalid-utf8", "invalid-utf8", 0, ""), J("text-chars", "nul", "nul", 0, ""), J("text-chars", "quote", "lit", 0, "\"\"\""),
+  J("text-chars", "version-4-parts", "lit", 0, "1.2.3.4"), J("text-chars", "version-huge", "lit", 0, "4294967296.0.0"), J("text-chars", "version-negative", "lit", 0, "-1.0.0"),
+  J("text-chars", "letters", "str", 17, ""), J("text-chars", "letters", "str", 100000, "") >>
 
 \* (the variables ty, done are those of WireEnum)
 MInit == /\ ty = "" /\ done = FALSE
